@@ -1331,20 +1331,26 @@ class Session:
                 ediv=self.ltk_ediv,
                 rand=self.ltk_rand,
             )
-            if not self.peer_ltk:
-                logger.error("peer_ltk is None")
-            peer_ltk_key = PairingKeys.Key(
-                value=self.peer_ltk or b'',
-                authenticated=authenticated,
-                ediv=self.peer_ediv,
-                rand=self.peer_rand,
+            # Each LTK is filed under the local role in which it will be used on a
+            # later connection: the key received from the peer is the one to start
+            # encryption with when we are the central (`Device.encrypt`), the key
+            # we distributed is the one the peer will ask for when we are the
+            # peripheral (`Device.get_long_term_key`). A key that was not
+            # exchanged is not stored.
+            if self.peer_ltk is not None:
+                keys.ltk_central = PairingKeys.Key(
+                    value=self.peer_ltk,
+                    authenticated=authenticated,
+                    ediv=self.peer_ediv,
+                    rand=self.peer_rand,
+                )
+            our_key_distribution = (
+                self.initiator_key_distribution
+                if self.is_initiator
+                else self.responder_key_distribution
             )
-            if self.is_initiator:
-                keys.ltk_central = peer_ltk_key
+            if our_key_distribution & KeyDistribution.ENC_KEY:
                 keys.ltk_peripheral = our_ltk_key
-            else:
-                keys.ltk_central = our_ltk_key
-                keys.ltk_peripheral = peer_ltk_key
         if self.peer_identity_resolving_key is not None:
             keys.irk = PairingKeys.Key(
                 value=self.peer_identity_resolving_key, authenticated=authenticated
